@@ -105,6 +105,48 @@ pub struct TransThenMarker(pub Tracked, pub FailMarker);
 #[repr(transparent)]
 pub struct TransArrThenMarker(pub [Tracked; 3], pub FailMarker, pub core::marker::PhantomData<u8>);
 
+/// payload, a zero-sized field that decodes, then one that can fail: whoever owns the payload after
+/// the first marker must still own it when the second one fails
+#[derive(Decode)]
+#[repr(transparent)]
+pub struct TransTwoMarkers(pub Tracked, pub FailMarker, pub FailMarker);
+#[derive(Decode)]
+#[repr(transparent)]
+pub struct TransMidPayload(pub FailMarker, pub core::marker::PhantomData<u16>, pub Tracked, pub FailMarker, pub FailMarker, pub FailMarker);
+#[derive(Decode)]
+#[repr(transparent)]
+pub struct TransNested(pub TransTwoMarkers, pub FailMarker, pub FailMarker);
+
+/// A later marker (not the one directly behind the payload) fails, panics or is missing.
+fn later_marker_cases(ctx: &mut Ctx) {
+	for (what, tail, ok) in [("second marker rejected", &[9u8, 7][..], false), ("second marker missing", &[9][..], false), ("second marker panics", &[9, 0xfe][..], false), ("both accepted", &[9, 9][..], true), ("first marker rejected", &[7, 9][..], false)] {
+		macro_rules! one {
+			($label:expr, $t:ty, $head:expr, $payload:expr, $tail_extra:expr, $n:expr, $all_ok:expr) => {{
+				let mut bs: Vec<u8> = $head.to_vec();
+				bs.extend_from_slice(&$payload);
+				bs.extend_from_slice(tail);
+				bs.extend_from_slice(&$tail_extra);
+				let (_summary, problems) = observe(|| <$t>::decode(&mut &bs[..]), if ok && $all_ok { $n } else { 0 });
+				for p in problems {
+					ctx.oracle_fail("C10", format!("{} with {}: {}", $label, what, p));
+				}
+				ctx.count("ledger:cases", 1);
+			}};
+		}
+		let none: [u8; 0] = [];
+		one!("TransTwoMarkers", TransTwoMarkers, none, [5u8], none, 1, true);
+		one!("Box<TransTwoMarkers>", Box<TransTwoMarkers>, none, [5u8], none, 1, true);
+		one!("Rc<TransTwoMarkers>", Rc<TransTwoMarkers>, none, [5u8], none, 1, true);
+		one!("Arc<TransTwoMarkers>", Arc<TransTwoMarkers>, none, [5u8], none, 1, true);
+		one!("[TransTwoMarkers; 2] (second)", [TransTwoMarkers; 2], [4u8, 9, 9], [5u8], none, 2, true);
+		one!("Vec<Box<TransTwoMarkers>> (second)", Vec<Box<TransTwoMarkers>>, [2u8 << 2, 4, 9, 9], [5u8], none, 2, true);
+		one!("Box<TransMidPayload>", Box<TransMidPayload>, [9u8], [5u8], [9u8], 1, true);
+		one!("Box<TransMidPayload> (last marker bad)", Box<TransMidPayload>, [9u8], [5u8], [8u8], 1, false);
+		one!("Box<TransNested>", Box<TransNested>, none, [5u8, 9, 9], none, 1, true);
+		one!("Box<[TransTwoMarkers; 3]> (third)", Box<[TransTwoMarkers; 3]>, [3u8, 9, 9, 4, 9, 9], [5u8], none, 3, true);
+	}
+}
+
 /// Fields decoded in place before a LATER zero-sized field fails must be dropped (finding F6).
 fn trailing_marker_cases(ctx: &mut Ctx) {
 	for (what, tail) in [("rejected", &[7u8][..]), ("missing", &[][..]), ("panics", &[0xfe][..]), ("accepted", &[9][..])] {
@@ -485,6 +527,7 @@ pub fn ledger_stream(ctx: &mut Ctx) {
 	}
 	holders_under_depth_limit(ctx);
 	trailing_marker_cases(ctx);
+	later_marker_cases(ctx);
 	// Option / Result / tuples / derived types: fixed shapes, failure at every element position
 	grid!(ctx, "Option<Tracked> (Some)", None, 1, &[1], |bs: &[u8]| <Option<Tracked>>::decode(&mut &bs[..]));
 	grid!(ctx, "Result<Tracked, Tracked> (Err)", None, 1, &[1], |bs: &[u8]| <Result<Tracked, Tracked>>::decode(&mut &bs[..]));
